@@ -758,25 +758,44 @@ Qed.
 
 Ltac blia := unfold byte, bytes in *; lia.
 
-(* Parser.advance over a gap: line ends are skipped, the token behind the gap is returned *)
+(* does a gap contain a line end (a comment always ends in one) *)
+Definition has_nl (g : bytes) : bool := existsb (N.eqb 10) g.
+
+Lemma hws_no_nl : forall ws, forallb is_hws ws = true -> has_nl ws = false.
+Proof.
+  induction ws as [|c ws IH]; intro H; [reflexivity|].
+  cbn [forallb] in H. apply andb_true_iff in H. destruct H as [Hc H].
+  cbn [has_nl existsb]. fold (has_nl ws). rewrite (IH H).
+  unfold is_hws in Hc. destruct (N.eqb_spec 10 c) as [<-|]; [discriminate Hc|reflexivity].
+Qed.
+
+Lemma has_nl_app : forall a b, has_nl (a ++ b) = (has_nl a || has_nl b)%bool.
+Proof. intros. unfold has_nl. apply existsb_app. Qed.
+
+Lemma has_nl_mid : forall a b, has_nl (a ++ 10%N :: b) = true.
+Proof. intros. rewrite has_nl_app. cbn [has_nl existsb N.eqb Pos.eqb]. cbn. apply orb_true_r. Qed.
+
+(* Parser.advance over a gap: line ends are skipped (and remembered), the token behind the
+   gap is returned *)
 Lemma nnn_gap : forall g, is_gap g ->
   forall k tl pos st saw fuel, wf_tok k = true -> sep_ok tl = true -> length g < fuel ->
-  exists saw',
     next_non_newline fuel (mkLexer (g ++ spell k ++ tl) pos st) saw =
     (LexTok (tok_of k (pos + length g))
-            (mkLexer tl (length (spell k) + (pos + length g)) (start_of k (pos + length g))), saw').
+            (mkLexer tl (length (spell k) + (pos + length g)) (start_of k (pos + length g))),
+     (saw || has_nl g)%bool).
 Proof.
   intros g H. induction H as [ws Hws|ws g Hws Hg IH|ws cmt g Hws Hc Hg IH];
     intros k tl pos st saw fuel Hk Htl Hf.
-  - destruct fuel as [|f]; [blia|]. exists saw.
+  - destruct fuel as [|f]; [lia|]. rewrite (hws_no_nl ws Hws), orb_false_r.
     apply nnn_tok.
     + apply (lex_next_ws (mkLexer (ws ++ spell k ++ tl) pos st) ws k tl eq_refl Hws Hk Htl).
     + intro E. apply (wf_tok_not_newline k Hk). rewrite <- E. destruct k; reflexivity.
   - destruct fuel as [|f]; [blia|]. rewrite app_length in Hf. cbn [length] in Hf.
     cbn [next_non_newline]. rewrite <- app_assoc. cbn [app].
     rewrite lex_next_skip by (auto; reflexivity). rewrite lex_next_newline. cbn [ttag simple].
-    destruct (IH k tl (S (pos + length ws)) (pos + length ws) true f Hk Htl) as [saw' E]; [blia|].
-    exists saw'. unfold byte, bytes in *. rewrite E. rewrite app_length. cbn [length].
+    unfold byte, bytes in *.
+    rewrite (IH k tl (S (pos + length ws)) (pos + length ws) true f Hk Htl) by blia.
+    rewrite has_nl_mid, orb_true_r. cbn [orb]. rewrite app_length. cbn [length].
     replace (S (pos + length ws) + length g) with (pos + (length ws + S (length g))) by blia.
     reflexivity.
   - destruct fuel as [|f]; [blia|]. rewrite app_length in Hf. cbn [length] in Hf.
@@ -784,9 +803,14 @@ Proof.
     cbn [next_non_newline].
     rewrite <- app_assoc; cbn [app]; rewrite <- app_assoc; cbn [app].
     rewrite lex_next_comment by auto. rewrite lex_next_newline. cbn [ttag simple].
-    destruct (IH k tl (S (pos + length ws + 1 + length cmt)) (pos + length ws + 1 + length cmt) true f Hk Htl)
-      as [saw' E]; [blia|].
-    exists saw'. unfold byte, bytes in *. rewrite E. rewrite app_length. cbn [length]. rewrite app_length. cbn [length].
+    unfold byte, bytes in *.
+    rewrite (IH k tl (S (pos + length ws + 1 + length cmt)) (pos + length ws + 1 + length cmt) true f Hk Htl)
+      by blia.
+    assert (Hn : has_nl (ws ++ 35%N :: cmt ++ 10%N :: g) = true).
+    { change (ws ++ 35%N :: cmt ++ 10%N :: g) with (ws ++ (35%N :: cmt) ++ 10%N :: g).
+      rewrite app_assoc. apply has_nl_mid. }
+    rewrite Hn, orb_true_r. cbn [orb].
+    rewrite app_length. cbn [length]. rewrite app_length. cbn [length].
     replace (S (pos + length ws + 1 + length cmt) + length g)
       with (pos + (length ws + S (length cmt + S (length g)))) by blia.
     reflexivity.
@@ -794,19 +818,22 @@ Qed.
 
 Lemma nnn_gap_eof : forall g, is_gap g ->
   forall pos st saw fuel, length g < fuel ->
-  exists tok st' saw',
-    next_non_newline fuel (mkLexer g pos st) saw = (LexTok tok (mkLexer [] (pos + length g) st'), saw') /\
+  exists tok st',
+    next_non_newline fuel (mkLexer g pos st) saw =
+      (LexTok tok (mkLexer [] (pos + length g) st'), (saw || has_nl g)%bool) /\
     ttag tok = TEOF.
 Proof.
   intros g H. induction H as [ws Hws|ws g Hws Hg IH|ws cmt g Hws Hc Hg IH];
     intros pos st saw fuel Hf.
-  - destruct fuel as [|f]; [blia|]. exists (simple TEOF (pos + length ws)), (pos + length ws), saw. split; [|reflexivity].
+  - destruct fuel as [|f]; [lia|]. exists (simple TEOF (pos + length ws)), (pos + length ws).
+    split; [|reflexivity]. rewrite (hws_no_nl ws Hws), orb_false_r.
     apply nnn_tok; [apply lex_next_trail; exact Hws|discriminate].
   - destruct fuel as [|f]; [blia|]. rewrite app_length in Hf. cbn [length] in Hf.
     cbn [next_non_newline].
     rewrite lex_next_skip by (auto; reflexivity). rewrite lex_next_newline. cbn [ttag simple].
-    destruct (IH (S (pos + length ws)) (pos + length ws) true f) as [tok [st' [saw' [E Ht]]]]; [blia|].
-    exists tok, st', saw'. split; [|exact Ht]. unfold byte, bytes in *. rewrite E. rewrite app_length. cbn [length].
+    destruct (IH (S (pos + length ws)) (pos + length ws) true f) as [tok [st' [E Ht]]]; [blia|].
+    exists tok, st'. split; [|exact Ht]. unfold byte, bytes in *. rewrite E.
+    rewrite has_nl_mid, orb_true_r. cbn [orb]. rewrite app_length. cbn [length].
     replace (S (pos + length ws) + length g) with (pos + (length ws + S (length g))) by blia.
     reflexivity.
   - destruct fuel as [|f]; [blia|]. rewrite app_length in Hf. cbn [length] in Hf.
@@ -814,20 +841,17 @@ Proof.
     cbn [next_non_newline].
     rewrite lex_next_comment by auto. rewrite lex_next_newline. cbn [ttag simple].
     destruct (IH (S (pos + length ws + 1 + length cmt)) (pos + length ws + 1 + length cmt) true f)
-      as [tok [st' [saw' [E Ht]]]]; [blia|].
-    exists tok, st', saw'. split; [|exact Ht]. unfold byte, bytes in *. rewrite E.
+      as [tok [st' [E Ht]]]; [blia|].
+    exists tok, st'. split; [|exact Ht]. unfold byte, bytes in *. rewrite E.
+    assert (Hn : has_nl (ws ++ 35%N :: cmt ++ 10%N :: g) = true).
+    { change (ws ++ 35%N :: cmt ++ 10%N :: g) with (ws ++ (35%N :: cmt) ++ 10%N :: g).
+      rewrite app_assoc. apply has_nl_mid. }
+    rewrite Hn, orb_true_r. cbn [orb].
     rewrite app_length. cbn [length]. rewrite app_length. cbn [length].
     replace (S (pos + length ws + 1 + length cmt) + length g)
       with (pos + (length ws + S (length cmt + S (length g)))) by blia.
     reflexivity.
 Qed.
-
-(* the lexer sits in [src] in front of the tokens [ts], each preceded by a non-empty gap;
-   a trailing gap may follow the last one *)
-Definition LexAt (src : bytes) (l : lexer) (ts : list stoken) : Prop :=
-  (exists pre, src = pre ++ lrest l /\ length pre = lpos l) /\
-  exists items trail, map snd items = ts /\ Gaps false items /\ is_gap trail /\
-                      lrest l = lay items trail.
 
 Lemma tail_text_sep : forall ts, sep_ok (tail_text ts) = true.
 Proof. intros [|k ts]; reflexivity. Qed.
@@ -835,70 +859,64 @@ Proof. intros [|k ts]; reflexivity. Qed.
 Lemma lay_length_gap : forall g k r trail, length g < S (length (g ++ spell k ++ lay r trail)).
 Proof. intros. rewrite app_length. lia. Qed.
 
-(* what Parser.advance sees *)
-Lemma nnn_at : forall src l k ts,
-  LexAt src l (k :: ts) -> wf_tok k = true ->
-  exists tok l' saw, next_non_newline (S (length (lrest l))) l false = (LexTok tok l', saw) /\
-    tok_matches src tok k /\ LexAt src l' ts.
+(* the lexer is somewhere in [src]: what it has read plus what remains is the text *)
+Definition lex_in (src : bytes) (l : lexer) : Prop :=
+  exists pre, src = pre ++ lrest l /\ length pre = lpos l.
+
+(* what Parser.advance sees in front of a laid-out token: the token, the lexer behind it,
+   and whether the gap had a line end *)
+Lemma nnn_items : forall src l g k r trail,
+  lex_in src l -> lrest l = lay ((g, k) :: r) trail ->
+  is_gap g -> wf_tok k = true -> Gaps false r -> is_gap trail ->
+  exists tok l', next_non_newline (S (length (lrest l))) l false = (LexTok tok l', has_nl g) /\
+    tok_matches src tok k /\ lex_in src l' /\ lrest l' = lay r trail.
 Proof.
-  intros src l k ts [[pre [Hsrc Hlen]] [items [trail [Hmap [Hg [Ht Hrest]]]]]] Hwf.
-  destruct items as [|[g k0] r]; [discriminate Hmap|].
-  cbn [map snd] in Hmap. inversion Hmap as [[Ek Er]]. subst k0. clear Hmap.
-  cbn [Gaps] in Hg. destruct Hg as [Hgap [_ [Hk Hr]]].
+  intros src l g k r trail [pre [Hsrc Hlen]] Hrest Hgap Hwf Hr Ht.
   cbn [lay] in Hrest. destruct l as [lr lp ls]. cbn [lrest lpos lstart] in *. subst lr.
-  destruct (nnn_gap g Hgap k (lay r trail) lp ls false (S (length (g ++ spell k ++ lay r trail))) Hwf
-              (lay_sep_G r trail Hr Ht) (lay_length_gap g k r trail)) as [saw E].
-  rewrite E. eexists. eexists. exists saw. split; [reflexivity|]. split.
+  rewrite (nnn_gap g Hgap k (lay r trail) lp ls false (S (length (g ++ spell k ++ lay r trail))) Hwf
+              (lay_sep_G r trail Hr Ht) (lay_length_gap g k r trail)).
+  eexists. eexists. split; [reflexivity|]. split; [|split].
   - rewrite Hsrc.
     replace (pre ++ g ++ spell k ++ lay r trail) with ((pre ++ g) ++ spell k ++ lay r trail)
       by (rewrite <- app_assoc; reflexivity).
     replace (lp + length g) with (length (pre ++ g)) by (rewrite app_length; unfold byte, bytes in *; lia).
     apply tok_of_matches.
-  - split.
-    + cbn [lrest lpos]. exists (pre ++ g ++ spell k). split.
-      * rewrite Hsrc. rewrite <- !app_assoc. reflexivity.
-      * rewrite !app_length. unfold byte, bytes in *. lia.
-    + exists r, trail. cbn [lrest]. auto.
+  - cbn [lrest lpos]. exists (pre ++ g ++ spell k). split.
+    + cbn [lrest]. rewrite Hsrc. rewrite <- !app_assoc. reflexivity.
+    + cbn [lpos]. rewrite !app_length. unfold byte, bytes in *. lia.
+  - reflexivity.
 Qed.
 
-Lemma nnn_at_eof : forall src l,
-  LexAt src l [] ->
-  exists tok l' saw, next_non_newline (S (length (lrest l))) l false = (LexTok tok l', saw) /\
-    ttag tok = TEOF /\ LexAt src l' [].
+Lemma nnn_trail : forall src l trail,
+  lex_in src l -> lrest l = trail -> is_gap trail ->
+  exists tok l', next_non_newline (S (length (lrest l))) l false = (LexTok tok l', has_nl trail) /\
+    ttag tok = TEOF /\ lex_in src l' /\ lrest l' = [].
 Proof.
-  intros src l [[pre [Hsrc Hlen]] [items [trail [Hmap [Hg [Ht Hrest]]]]]].
-  destruct items as [|[ws k0] r]; [|discriminate Hmap]. cbn [lay] in Hrest.
+  intros src l trail [pre [Hsrc Hlen]] Hrest Ht.
   destruct l as [lr lp ls]. cbn [lrest lpos lstart] in *. subst lr.
   destruct (nnn_gap_eof trail Ht lp ls false (S (length trail)) (Nat.lt_succ_diag_r _))
-    as [tok [st' [saw [E Htag]]]].
-  rewrite E. eexists. eexists. exists saw. split; [reflexivity|]. split; [exact Htag|].
-  split.
-  - cbn [lrest lpos]. exists (pre ++ trail). split.
-    + rewrite Hsrc. now rewrite app_nil_r.
-    + rewrite app_length. unfold byte, bytes in *. lia.
-  - exists [], []. cbn [lrest]. repeat split; auto. now apply gap_ws.
+    as [tok [st' [E Htag]]].
+  rewrite E. eexists. eexists. split; [reflexivity|]. split; [exact Htag|]. split; [|reflexivity].
+  exists (pre ++ trail). split.
+  - cbn [lrest]. rewrite Hsrc. now rewrite app_nil_r.
+  - cbn [lpos]. rewrite app_length. unfold byte, bytes in *. lia.
 Qed.
 
-(* the very first token of a text: the gap in front may be empty *)
-Lemma nnn_first_lay : forall g k r trail,
-  Gaps true ((g, k) :: r) -> is_gap trail ->
-  exists tok l' saw,
-    next_non_newline (S (length (lay ((g, k) :: r) trail))) (new_lexer (lay ((g, k) :: r) trail)) false =
-      (LexTok tok l', saw) /\
-    tok_matches (lay ((g, k) :: r) trail) tok k /\ LexAt (lay ((g, k) :: r) trail) l' (map snd r).
+Lemma Gaps_skipn : forall i items first, Gaps first items -> Gaps false (skipn (S i) items).
 Proof.
-  intros g k r trail Hg Ht.
-  cbn [Gaps] in Hg. destruct Hg as [Hgap [_ [Hk Hr]]].
-  cbn [lay]. unfold new_lexer.
-  destruct (nnn_gap g Hgap k (lay r trail) 0 0 false (S (length (g ++ spell k ++ lay r trail))) Hk
-              (lay_sep_G r trail Hr Ht) (lay_length_gap g k r trail)) as [saw E].
-  rewrite E. eexists. eexists. exists saw. split; [reflexivity|]. split.
-  - cbn [Nat.add]. apply (tok_of_matches g k (lay r trail)).
-  - split.
-    + cbn [lrest lpos]. exists (g ++ spell k). split.
-      * now rewrite <- app_assoc.
-      * rewrite app_length. unfold byte, bytes in *. lia.
-    + exists r, trail. cbn [lrest]. auto.
+  induction i as [|i IH]; intros items first H.
+  - destruct items as [|[g k] r]; [exact I|]. cbn [Gaps] in H. cbn [skipn]. tauto.
+  - destruct items as [|[g k] r]; [exact I|]. cbn [Gaps] in H. cbn [skipn].
+    apply (IH r false). tauto.
+Qed.
+
+Lemma Gaps_nth : forall i items first g k r, Gaps first items -> skipn i items = (g, k) :: r ->
+  is_gap g /\ wf_tok k = true /\ Gaps false r.
+Proof.
+  induction i as [|i IH]; intros items first g k r H E.
+  - cbn [skipn] in E. subst items. cbn [Gaps] in H. tauto.
+  - destruct items as [|[g0 k0] r0]; [discriminate E|]. cbn [skipn] in E. cbn [Gaps] in H.
+    apply (IH r0 false g k r); tauto.
 Qed.
 
 (* ================================================================= C13 statements *)
